@@ -117,12 +117,22 @@ def run_case(case: dict, prop: str) -> Outcome:
                     parent[al[1][-1]] = src
             except (KeyError, TypeError, IndexError):
                 pass
+    wrap = case.get("wrap") or 0
+    for i in range(wrap):
+        # the whole pair sits `wrap` levels down (deeply nested configuration; every level is a dict/dict collision)
+        k = KEYS[(wrap - i) % len(KEYS)]
+        a = None if a is None else {k: a}
+        b = None if b is None else {k: b}
     a0, b0 = copy.deepcopy(a), copy.deepcopy(b)
     ga, gb = _idgraph(a), _idgraph(b)
     ga_post = (ga, gb)
     labs = _collisions(a, b)
     if case.get("alias_a") or case.get("alias_b"):
         labs.add("shared-subdict")
+    if wrap:
+        labs.add("nesting>32" if wrap + 1 > 32 else "nesting>8" if wrap + 1 > 8 else "nesting<=8")
+    if case.get("remerge"):
+        labs.add("remerge:" + case["remerge"]["mut"])
     out.labels = sorted(labs) + [f"a={'None' if a is None else 'dict'}", f"b={'None' if b is None else 'dict'}"]
     out.nontrivial = bool(labs & {"dict/dict@2", "dict/dict@3", "dict/scalar", "scalar/dict"})
     try:
@@ -174,7 +184,52 @@ def run_case(case: dict, prop: str) -> Outcome:
             out.add("purity", "purity:result-aliases-argument", "clearing the result changed an argument")
     except Exception as exc:
         out.add("merge", "merge:raises:" + type(exc).__name__, f"law call raised {short_exc(exc)}")
+    rm = case.get("remerge")
+    if rm and not out.discs:
+        _remerge(out, rm, a, b, res, wrap)
     return out
+
+
+def _remerge(out: Outcome, rm: dict, a: Any, b: Any, res: dict, wrap: int) -> None:
+    """The same argument objects are merged again after one of them (or a freshly merged part of the
+    earlier result) was changed in place: the second result is a function of what the arguments hold now."""
+    from asphalt.core import merge_config
+
+    target = {"arg_a": a, "arg_b": b, "result": res}[rm["mut"]]
+    path = [KEYS[(wrap - i) % len(KEYS)] for i in reversed(range(wrap))] + list(rm["path"])
+    try:
+        node = _get(target, tuple(path))
+        if rm["mut"] == "result":
+            # only dictionaries the merge itself made (dict/dict collisions along the whole path) are the caller's to change
+            _get(a, tuple(path)), _get(b, tuple(path))
+            na, nb = a, b
+            for k in path:
+                na, nb = na[k], nb[k]
+                if not isinstance(na, dict) or not isinstance(nb, dict):
+                    return
+    except (KeyError, TypeError, IndexError):
+        return
+    if not isinstance(node, dict):
+        return
+    if rm["value"] == "__del__":
+        if rm["key"] not in node:
+            return
+        del node[rm["key"]]
+    else:
+        node[rm["key"]] = copy.deepcopy(rm["value"])
+    a1, b1 = copy.deepcopy(a), copy.deepcopy(b)
+    try:
+        res3 = merge_config(a, b)
+    except Exception as exc:
+        out.add("merge", "merge:raises:" + type(exc).__name__, f"second merge raised {short_exc(exc)}")
+        return
+    exp3 = ref_merge(a1, b1)
+    if not strict_eq(res3, exp3):
+        out.add("merge", "merge:stale-second-merge",
+                f"after changing {rm['mut']} at {path!r} [{rm['key']!r}] = {rm['value']!r}, merge_config({a1!r}, {b1!r}) = {res3!r}, "
+                f"expected {exp3!r}")
+    if not strict_eq(a, a1) or not strict_eq(b, b1):
+        out.add("purity", "purity:original-modified", "an argument was modified by the second merge")
 
 
 # ---- generators ---------------------------------------------------------------------
@@ -224,6 +279,25 @@ def _pairs(draw: Any, max_keys: int) -> dict:
                 j = draw(ints(0, len(ps) - 1))
                 if i != j:
                     case[which] = [list(ps[i]), list(ps[j])]
+    r = draw(ints(0, 99))
+    if r < 12:
+        case["wrap"] = draw(ints(1, 100))
+    elif r < 20:
+        case["wrap"] = draw(ints(28, 36))
+    if draw(ints(0, 99)) < 30:
+        mut = ["arg_a", "arg_b", "result"][draw(ints(0, 2))]
+        src = {"arg_a": a, "arg_b": b, "result": ref_merge(a, b)}[mut]
+        if isinstance(src, dict):
+            if mut == "result":
+                ps = [()] + [p for p in _dict_paths(a) if isinstance(b, dict) and p in _dict_paths(b)]
+            else:
+                ps = [()] + _dict_paths(src)
+            path = ps[draw(ints(0, len(ps) - 1))]
+            node = _get(src, path)
+            keys = sorted(node) + KEYS[:3]
+            key = keys[draw(ints(0, len(keys) - 1))]
+            value = "__del__" if key in node and draw(ints(0, 3)) == 0 else draw(_values(1))
+            case["remerge"] = {"mut": mut, "path": list(path), "key": key, "value": value}
     return case
 
 
